@@ -130,6 +130,31 @@ func flattenString(e *Env, v ssa.Value, sep string, heads *[]string, depth int, 
 		case "(*bytes.Buffer).Bytes", "(*bytes.Buffer).String", "(*strings.Builder).String":
 			return flattenBuffer(e, x.Call.Args[0], sep, heads, depth+1, loopPhi)
 		}
+		// a module helper that assembles the string (`createTxData(function, arguments)`): what it returns, in its calling context
+		if sc := x.Call.StaticCallee(); sc != nil && len(sc.Blocks) > 0 && sc.Pkg != nil && strings.HasPrefix(sc.Pkg.Pkg.Path(), modPath) && x.Call.Signature().Results().Len() == 1 && e.depth < maxDepth {
+			sub := e.Sub(x, sc)
+			shape := ""
+			for i, r := range returnsOf(sc) {
+				if len(r.Results) != 1 {
+					return "?"
+				}
+				s2 := flattenString(sub, retval(r, 0), sep, heads, depth+1, loopPhi)
+				if i > 0 && s2 != shape {
+					// returns of different shapes: acceptable only if each is a prefix form of the same grammar (`if len(args) == 0 { return function }`)
+					if encoderShape.MatchString(s2) && encoderShape.MatchString(shape) {
+						if len(s2) > len(shape) {
+							shape = s2
+						}
+						continue
+					}
+					return "?"
+				}
+				shape = s2
+			}
+			if shape != "" {
+				return shape
+			}
+		}
 	case *ssa.Parameter:
 		if a, pe := e.actual(x); a != nil {
 			return flattenString(pe, a, sep, heads, depth+1, loopPhi)
@@ -141,6 +166,21 @@ func flattenString(e *Env, v ssa.Value, sep string, heads *[]string, depth int, 
 		if _, isStr := x.Type().Underlying().(*types.Basic); isStr {
 			*heads = append(*heads, "<"+e.Term(x.X)+">")
 			return "H"
+		}
+		// []byte("constant"): the constant
+		if k, ok := x.X.(*ssa.Const); ok {
+			return flattenString(e, k, sep, heads, depth+1, loopPhi)
+		}
+	case *ssa.UnOp:
+		// the bytes of an argument used as they are (a function name handed on as []byte)
+		if x.Op == token.MUL {
+			if f := forwarded(x); f != nil {
+				return flattenString(e, f, sep, heads, depth+1, loopPhi)
+			}
+			if t := e.Term(x); strings.Contains(t, ".Arguments[") {
+				*heads = append(*heads, "<"+t+">")
+				return "H"
+			}
 		}
 	case *ssa.Phi:
 		if loopPhi[x] {
@@ -171,8 +211,26 @@ func flattenString(e *Env, v ssa.Value, sep string, heads *[]string, depth int, 
 // flattenBuffer: the content of a local bytes.Buffer / strings.Builder is what was written into it, in program order; writes
 // inside a loop repeat. Any other use of the buffer (handed to other code) makes the content unknown.
 func flattenBuffer(e *Env, buf ssa.Value, sep string, heads *[]string, depth int, loopPhi map[*ssa.Phi]bool) string {
-	al, ok := buf.(*ssa.Alloc)
-	if !ok || al.Referrers() == nil {
+	var al ssa.Value
+	initial := ""
+	switch b := buf.(type) {
+	case *ssa.Alloc:
+		al = b
+	case *ssa.Call:
+		// bytes.NewBuffer(make([]byte, 0, n)) / bytes.NewBuffer(x) / bytes.NewBufferString(s): starts with what it is given
+		switch CalleeName(b) {
+		case "bytes.NewBuffer", "bytes.NewBufferString":
+			al = b
+			if ms, ok := b.Call.Args[0].(*ssa.MakeSlice); ok {
+				if k, isK := constInt(ms.Len); !isK || k != 0 {
+					return "?"
+				}
+			} else if !isNilConst(b.Call.Args[0]) {
+				initial = flattenString(e, b.Call.Args[0], sep, heads, depth+1, loopPhi)
+			}
+		}
+	}
+	if al == nil || al.Referrers() == nil {
 		return "?"
 	}
 	type wr struct {
@@ -217,7 +275,12 @@ func flattenBuffer(e *Env, buf ssa.Value, sep string, heads *[]string, depth int
 		case "Write":
 			shape = "?"
 			if cv, ok := call.Call.Args[1].(*ssa.Convert); ok {
-				shape = flattenString(e, cv.X, sep, heads, depth+1, loopPhi)
+				if _, isConst := cv.X.(*ssa.Const); !isConst {
+					shape = flattenString(e, cv.X, sep, heads, depth+1, loopPhi)
+				}
+			}
+			if shape == "?" {
+				shape = flattenString(e, call.Call.Args[1], sep, heads, depth+1, loopPhi)
 			}
 		case "Bytes", "String", "Len", "Grow", "Cap":
 			continue
@@ -233,7 +296,7 @@ func flattenBuffer(e *Env, buf ssa.Value, sep string, heads *[]string, depth int
 		}
 		return indexIn(ws[i].call) < indexIn(ws[j].call)
 	})
-	out := ""
+	out := initial
 	for i := 0; i < len(ws); {
 		if !ws[i].loop {
 			out += ws[i].shape
@@ -248,6 +311,23 @@ func flattenBuffer(e *Env, buf ssa.Value, sep string, heads *[]string, depth int
 		out += "(" + grp + ")*"
 	}
 	return out
+}
+
+// dataStringOf: the value whose flattened shape is the data stored by st into OutputTransfer.Data: the string behind
+// []byte(s), the bytes of a local buffer, or what a helper of the package returns; nil if it is none of these.
+func dataStringOf(p *Prog, st *ssa.Store) ssa.Value {
+	if cv, ok := st.Val.(*ssa.Convert); ok {
+		return cv.X
+	}
+	if bc, ok := st.Val.(*ssa.Call); ok {
+		if CalleeName(bc) == "(*bytes.Buffer).Bytes" {
+			return bc
+		}
+		if sc := bc.Call.StaticCallee(); sc != nil && p.InPkgs(sc, "builtInFunctions") {
+			return bc
+		}
+	}
+	return nil
 }
 
 var encoderShape = regexp.MustCompile(`^H(SX|\(SX\)\*)*$`)
@@ -292,6 +372,8 @@ func c10r1(c *Ctx) {
 				dataString = cv.X
 			} else if bc, ok := st.Val.(*ssa.Call); ok && CalleeName(bc) == "(*bytes.Buffer).Bytes" {
 				dataString = bc // the bytes of a local buffer: what was written into it
+			} else if bc, ok := st.Val.(*ssa.Call); ok && bc.Call.StaticCallee() != nil && c.P.InPkgs(bc.Call.StaticCallee(), "builtInFunctions") {
+				dataString = bc // assembled by a helper of the package: what it returns
 			}
 			if dataString == nil {
 				c.Fail(rule, "violation", FuncName(st.Parent()), construct, pos, "Data is not []byte(<string>) nor the bytes of a local buffer: "+s.Env.Term(st.Val))
@@ -552,7 +634,7 @@ func ledgerTables(c *Ctx, name string, r Registration) (map[string]roleTable, []
 			if InvokeName(v) == "AccountsAdapter.LoadAccount" {
 				return "LoadAccount", true
 			}
-			if sc := v.Call.StaticCallee(); sc != nil && len(sc.Params) >= 3 && sc.Params[1].Type().String() == "string" && sc.Params[2].Type().String() == "[][]byte" {
+			if sc := v.Call.StaticCallee(); sc != nil && len(sc.Params) >= 3 && (sc.Params[1].Type().String() == "string" || sc.Params[1].Type().String() == "[]byte") && sc.Params[2].Type().String() == "[][]byte" {
 				return "encoder", true
 			}
 		}
@@ -622,8 +704,12 @@ func ledgerTables(c *Ctx, name string, r Registration) (map[string]roleTable, []
 			addIdx("receiver", call.Call.Args[0])
 		case "encoder":
 			// attached call executed locally: function name string(Arguments[F]), arguments Arguments[F+1:]
-			if cv, ok := call.Call.Args[1].(*ssa.Convert); ok {
-				addIdx("callFunction", cv.X)
+			fnArg := call.Call.Args[1]
+			if cv, ok := fnArg.(*ssa.Convert); ok {
+				fnArg = cv.X
+			}
+			if _, isConst := fnArg.(*ssa.Const); !isConst {
+				addIdx("callFunction", fnArg)
 				// the call arguments: `nil` or Arguments[F+1:], merged by a φ or produced by a small helper
 				type cand struct {
 					v ssa.Value
